@@ -1400,6 +1400,11 @@ def source_triggers(src, cells_names=()):
             if any(isinstance(x, scopes + comps) for x in ast.walk(n.body)) and \
                     any(isinstance(x, scopes + comps) for x in ast.walk(n.test)):
                 res.add(K_SCOPE_IN_DEFAULT)
+        if isinstance(n, ast.DictComp):
+            # symtable visits the VALUE of a dict comprehension before its KEY, libcst the key first
+            if any(isinstance(x, scopes) for x in ast.walk(n.key)) and \
+                    any(isinstance(x, scopes) for x in ast.walk(n.value)):
+                res.add(K_SCOPE_IN_DEFAULT)
     # a comprehension variable that is also a global name of the function (inlined comprehensions, 3.12+)
     try:
         gl = _globals_anywhere(src)
